@@ -1,7 +1,7 @@
 (* C13  Text-selection relations have their documented algebraic meaning.
    Only statements: every theorem is closed by [exact] of a lemma of
    Proofs/Rel.v.  [ws] is the whitespace flag of every codepoint of the text. *)
-From Stam Require Import Base.Tac Model.Rel Spec.RelSpec Proofs.Rel Model.RelArms Gen.RelPairTable Proofs.AgreeRelPair.
+From Stam Require Import Base.Tac Model.Rel Spec.RelSpec Proofs.Rel Model.RelArms Gen.RelPairTable Proofs.AgreeRelPair Gen.RelTsSetTable Proofs.AgreeRelSet.
 
 (* model = documented meaning, pairs and sets, every operator and modifier *)
 Theorem C13_pair_spec : forall ws o s r, wf s -> wf r ->
@@ -180,3 +180,16 @@ Proof. exact ws_limit_agrees. Qed.
 Theorem C13_code_pair_test_has_documented_meaning : forall ws o s r, wf s -> wf r ->
   interp_pair pair_arms ws o s r = Some (spec_pair ws o s r).
 Proof. intros ws o s r Hs Hr. rewrite pair_arms_agree. f_equal. apply C13_pair_spec; assumption. Qed.
+
+(* The same for the test of one selection against a set (`TextSelection::test_set`): its arms -
+   the any-loop and the all-loop over the pair test, the emptiness guard, the folded minimum of
+   begins / maximum of ends, leftmost / rightmost, the negation arm - are regenerated from the source
+   on every run (tools/translate_relset.py) and denote test_ts_set for every operator, modifier
+   combination, text, selection and set of any size. *)
+Theorem C13_code_ts_set_test_is_the_model : forall ws o s B,
+  interp_ts_set pair_arms ts_set_arms ws o s B = Some (test_ts_set ws o s B).
+Proof. exact ts_set_arms_agree. Qed.
+
+Theorem C13_code_ts_set_test_has_documented_meaning : forall ws o s B, wf s -> set_ok B ->
+  interp_ts_set pair_arms ts_set_arms ws o s B = Some (spec_ts_set ws o s (items B)).
+Proof. intros ws o s B Hs HB. rewrite ts_set_arms_agree. f_equal. apply C13_ts_set_spec; assumption. Qed.
